@@ -64,3 +64,131 @@ def as_numpy_variants(rng, x):
 
 def type_tag(v) -> str:
     return type(v).__name__
+
+
+# ------------------------------------------------------------------------------------------------
+# declarations: a plain-dict spec, from which both the Python variable and the model's JSON are built
+# ------------------------------------------------------------------------------------------------
+KINDS = ["cont", "contMulti", "disc", "discMulti", "perm", "multiObj", "binary"]
+ITEM_POOLS = [list("abcdefg"), [3, 1, 4, 15, 9, 2, 6], ["b", 2, "a", 1.5, "c", 0, "d"]]
+
+
+def rand_spec(rng, kind, max_size=3, nice=False):
+    """a random valid declaration of the given kind. `nice` keeps bounds at moderate scale (for optimizer runs)."""
+    bnd = (lambda: nice_bounds(rng)) if nice else (lambda: rand_bounds(rng))
+    if kind == "cont":
+        lb, ub = bnd()
+        return {"k": "cont", "lb": lb, "ub": ub}
+    if kind in ("contMulti", "multiObj"):
+        k = rng.randrange(1, max_size + 1)
+        bs = [bnd() for _ in range(k)]
+        return {"k": kind, "lbs": [b[0] for b in bs], "ubs": [b[1] for b in bs]}
+    if kind == "disc":
+        return {"k": "disc", "n": rng.randrange(1, 7), "pool": rng.randrange(3)}
+    if kind == "discMulti":
+        k = rng.randrange(1, max_size + 1)
+        return {"k": "discMulti", "ns": [rng.randrange(1, 6) for _ in range(k)]}
+    if kind == "perm":
+        return {"k": "perm", "n": rng.randrange(1, 7), "pool": rng.randrange(3)}
+    if kind == "binary":
+        return {"k": "binary", "n": rng.randrange(1, max_size + 1)}
+    raise ValueError(kind)
+
+
+def nice_bounds(rng):
+    kind = rng.randrange(5)
+    s = rng.choice([0.5, 1.0, 5.0, 10.0, 100.0])
+    if kind == 0:
+        return -s, s
+    if kind == 1:
+        return 0.0, s
+    if kind == 2:
+        return -s, 0.0
+    if kind == 3:
+        a = round(rng.uniform(-s, s), 3)
+        return a, a + round(rng.uniform(0.01, s), 3)
+    return s, 3 * s
+
+
+def spec_json(spec):
+    """the declaration as the model driver reads it (`Proto.getVarDecl`)."""
+    k = spec["k"]
+    if k == "cont":
+        return {"k": "cont", "lb": bits(spec["lb"]), "ub": bits(spec["ub"])}
+    if k in ("contMulti", "multiObj"):
+        return {"k": k, "lbs": [bits(x) for x in spec["lbs"]], "ubs": [bits(x) for x in spec["ubs"]]}
+    if k == "disc":
+        return {"k": "disc", "n": spec["n"]}
+    if k == "discMulti":
+        return {"k": "discMulti", "ns": list(spec["ns"])}
+    if k == "perm":
+        return {"k": "perm", "n": spec["n"]}
+    if k == "binary":
+        return {"k": "binary", "n": spec["n"]}
+    raise ValueError(k)
+
+
+def spec_size(spec):
+    k = spec["k"]
+    return {"cont": 1, "disc": 1, "perm": 1}.get(k) or (len(spec["lbs"]) if k in ("contMulti", "multiObj") else
+                                                         len(spec["ns"]) if k == "discMulti" else spec["n"])
+
+
+def spec_choices(spec):
+    """the declared choices (disc: list; discMulti: list of lists; perm: items)."""
+    k = spec["k"]
+    if k == "disc":
+        return [f"c{j}" if spec.get("pool", 0) == 0 else (10 * (j + 1) if spec["pool"] == 1 else [0.5, "x", 3, None, (1, 2), "y"][j]) for j in range(spec["n"])]
+    if k == "discMulti":
+        return [[100 * (i + 1) + j for j in range(n)] for i, n in enumerate(spec["ns"])]
+    if k == "perm":
+        return ITEM_POOLS[spec.get("pool", 0)][:spec["n"]]
+    return None
+
+
+def spec_flat(spec):
+    """the harness's own flattening of a declaration into scalar variables: ('cont', lb, ub) | ('disc', n) | ('perm', n)."""
+    k = spec["k"]
+    if k == "cont":
+        return [("cont", spec["lb"], spec["ub"])]
+    if k in ("contMulti", "multiObj"):
+        return [("cont", lb, ub) for lb, ub in zip(spec["lbs"], spec["ubs"])]
+    if k == "disc":
+        return [("disc", spec["n"])]
+    if k == "discMulti":
+        return [("disc", n) for n in spec["ns"]]
+    if k == "perm":
+        return [("perm", spec["n"])]
+    if k == "binary":
+        return [("disc", 2)] * spec["n"]
+
+
+def make_variable(spec, name):
+    import pyvolutionary as pv
+    k = spec["k"]
+    if k == "cont":
+        return pv.ContinuousVariable(name=name, lower_bound=spec["lb"], upper_bound=spec["ub"])
+    if k == "contMulti":
+        return pv.ContinuousMultiVariable(name=name, lower_bounds=list(spec["lbs"]), upper_bounds=list(spec["ubs"]))
+    if k == "multiObj":
+        return pv.MultiObjectiveVariable(name=name, lower_bounds=list(spec["lbs"]), upper_bounds=list(spec["ubs"]))
+    if k == "disc":
+        return pv.DiscreteVariable(name=name, choices=spec_choices(spec))
+    if k == "discMulti":
+        return pv.DiscreteMultiVariable(name=name, choices=spec_choices(spec))
+    if k == "perm":
+        return pv.PermutationVariable(name=name, items=spec_choices(spec))
+    if k == "binary":
+        return pv.BinaryVariable(name=name, n_vars=spec["n"])
+    raise ValueError(k)
+
+
+_TASK_CLASSES = {}
+
+
+def make_task(specs, objective=None, **kw):
+    """a Task over the given declarations (variables named v0, v1, …) with the given objective (default: constant 0)."""
+    import pyvolutionary as pv
+    f = objective or (lambda self, x: 0.0)
+    cls = type("GenTask", (pv.Task,), {"objective_function": lambda self, x: f(self, x)})
+    return cls(variables=[make_variable(s, f"v{i}") for i, s in enumerate(specs)], **kw)
